@@ -40,7 +40,7 @@ ASSUMPTIONS = [
 
 
 def GATES(tier):
-    return [("copies_judged", 300), ("identity_graphs_compared", 300), ("followup_mutations", 500), ("dnc_attrs_checked", 10), ("kind:deepcopy", 10)] + [
+    return [("copies_judged", 300), ("identity_graphs_compared", 300), ("followup_mutations", 500), ("dnc_attrs_checked", 10), ("kind:deepcopy", 10), ("dnc_with_subclass_cases", 5)] + [
         (f"kind:{hk}", 5) for hk in dr.HELPER_KINDS
     ]
 
@@ -119,13 +119,21 @@ def random_inplace_mutation(world, rng, insts, idx):
 def run(ctx, params):
     rng = ctx.rng
     for ci in range(params["cases"]):
-        decl = cg.gen_module(rng, {"frozen": False})
+        mixed = rng.random() < 0.3
+        decl = cg.gen_module(rng, {"frozen": False, "dnc_with_subclasses": mixed})
         world = cg.World(decl)
+        # do_not_copy x subclassing: what a subclass inherits is not documented, so only instances of the declaring
+        # (base) class are judged there - but the subclasses are bootstrapped and used alongside
+        base_only = len(decl.classes) > 1 and any(dnc_attrs(world, c.name) for c in decl.classes)
         try:
             history, insts = dr.build_history(world, rng, rng.randint(0, 6))
             for ji in range(params["copies_per_case"]):
                 case = [params.get("shard"), ci, ji]
-                receivers = [i for i, x in enumerate(insts) if dr.class_name(world, x) is not None]
+                receivers = [i for i, x in enumerate(insts) if dr.class_name(world, x) is not None and (not base_only or dr.class_name(world, x) == "M")]
+                if not receivers:
+                    break
+                if base_only:
+                    ctx.count("dnc_with_subclass_cases")
                 target = rng.choice(receivers)
                 R = insts[target]
                 cname = dr.class_name(world, R)
